@@ -1,6 +1,6 @@
 (* Basic facts about one VM cycle: clock bookkeeping and independence of the cycle limit. *)
 From Coq Require Import ZArith List Bool Arith Lia.
-From MV Require Import Base.Field Core.Op Core.Rpo Gen.ConstGen Vm.State Vm.Step.
+From MV Require Import Base.Field Core.Op Core.Rpo Gen.ConstGen Vm.State Vm.Pure Vm.Step.
 Import ListNotations.
 Open Scope Z_scope.
 
@@ -24,9 +24,12 @@ Ltac break_if H :=
   | context [match ?c with _ => _ end] => destruct c eqn:?
   end.
 
+Lemma lift_pure_clk s r s' : lift_pure s r = Ok s' -> clk s' = clk s.
+Proof. destruct r; cbn; intros H; [apply Ok_inj in H; subst s'; reflexivity | discriminate]. Qed.
+
 Lemma exec_op_clk o s s' : exec_op o s = Ok s' -> clk s' = clk s.
 Proof.
-  intros H. destruct o; cbn [exec_op] in H;
+  intros H. destruct o; cbn [exec_op] in H; try (exact (lift_pure_clk _ _ _ H));
     repeat (first [ discriminate H | break_if H ]);
     apply Ok_inj in H; subst s'; clk_simpl; reflexivity.
 Qed.
